@@ -88,6 +88,9 @@ def tamperings(k, others, rng):
             # re-framings that keep the byte stream (known finding F11)
             for cut in range(1, len(ks)):
                 t = k.copy(); t.chains[i] = (k.chains[i][0], ks[:cut]); t.chains.insert(i + 1, (b'', ks[cut:])); yield 'chain split at an empty right name', t
+                if k.chains[i][0]:
+                    t = k.copy(); t.chains[i] = (k.chains[i][0], ks[:cut]); t.chains.insert(i + 1, (k.chains[i][0], ks[cut:])); yield 'chain split in two entries with the same right name (right duplicated, secrets divided)', t
+                    t = k.copy(); t.chains[i] = (k.chains[i][0], ks[:cut]); t.chains.append((k.chains[i][0], ks[cut:])); yield 'chain split, second part appended under the same right name', t
         t = k.copy(); t.chains[i] = (k.chains[i][0], ks + [ks[0]]); yield 'secret duplicated', t
         if i + 1 < n and k.chains[i + 1][0] == b'':
             t = k.copy(); t.chains[i] = (k.chains[i][0], ks + k.chains[i + 1][1]); del t.chains[i + 1]; yield 'following empty-right chain merged', t
